@@ -234,6 +234,21 @@ pub fn run(rep: &Report) {
     source_plane(rep, true, 0xC07);
     let t = rep.thorough();
     sweep(rep, 64, if t { 1500 } else { 40 }, false, rep.seed ^ 0x70);
+    // string instructions interleaved with the instructions that set them up (DF, CX, SI/DI, segment loads), in
+    // lock-step with the reference on one machine
+    crate::insplane::history_plane(rep, if t { 40_000 } else { 600 }, 60, rep.seed ^ 0x47, false, "C07 lock-step history", "str", &|rng| {
+        match rng.below(10) {
+            0..=5 => {
+                let op = *rng.pick(&ALL_STR);
+                let p = *rng.pick(&prefixes(op));
+                Ins::Str(p, op, if rng.chance(1, 2) { W::B } else { W::W })
+            }
+            6 => Ins::Simple(*rng.pick(&["std", "cld", "stc", "clc"])),
+            7 => Ins::Mov(Loc::R16(*rng.pick(&[R16::SI, R16::DI, R16::CX, R16::AX])), Src::Imm(rng.hostile16())),
+            8 => Ins::Mov(Loc::SR(*rng.pick(&[SR::DS, SR::ES])), Src::Loc(Loc::R16(*rng.pick(&[R16::AX, R16::BX, R16::DX])))),
+            _ => Ins::Alu2(*rng.pick(&[Alu2::Add, Alu2::Sub, Alu2::Cmp]), Loc::R16(*rng.pick(&[R16::SI, R16::DI, R16::AX])), Src::Imm(rng.hostile16())),
+        }
+    });
     if t {
         // long counts, sampled
         long_counts(rep);
